@@ -462,7 +462,7 @@ class NumpyModel(types.ModuleType):
     def argmax(self, a, axis=None):
         if self._real is not None and not self._sym(a):
             return self._real.argmax(a, axis=axis)
-        raise OutOfReach("argmax of a symbolic array")
+        return argmax_model(a, axis)
 
     def min(self, a, *x, **k):
         if self._real is not None and not self._sym(a):
@@ -695,6 +695,10 @@ def tree_flatten_obj(x):
     return [], lambda ls: x
 
 
+VMAP_STACK = []       # placeholder index variables of the enclosing vmapped calls (uninterpreted library results created
+                      # inside a vmapped function depend on them)
+
+
 def vmap(f, in_axes=0, out_axes=0, **kw):
     used("vmap: vmap(f)(X)[i] = f(X[i])")
 
@@ -736,7 +740,11 @@ def vmap(f, in_axes=0, out_axes=0, **kw):
                     axn = l._ax(ax)
                     sl.append(_slice_at(l, axn, arr.conv_idx(bdim, bidx, l.dims[axn])))
                 call_args.append(rb(sl))
-            out = f(*call_args)
+            VMAP_STACK.append([p_ for p_ in _placeholders(bdim, bidx, []) if arr.is_z3(p_)])
+            try:
+                out = f(*call_args)
+            finally:
+                VMAP_STACK.pop()
             extra = sym.CTX.path[npath + len(hyps):]
             vs = {v.get_id() for h in hyps for v in _free_vars(h)}
             for e in extra:
@@ -1135,6 +1143,92 @@ def _stat_term(t, name):
     if not t.terms:
         return t.plain
     return arr.t_bin("add", t.plain, opaque_stat(SumExpr(0, t.terms), name))
+
+
+ARGMAX_NO_TIES = [False]    # pre-condition of the statement for max pooling: the maximum of every patch is attained once
+
+
+def argmax_model(a, axis):
+    """contract of jnp.argmax over an axis of concrete extent P: the result r (an uninterpreted function of the remaining
+    index digits) satisfies 0 <= r < P and a[.., j, ..] <= a[.., r, ..] for every j; under the no-ties pre-condition the
+    entries along the axis are pairwise different.  (jax returns the FIRST maximiser; which one is immaterial under the
+    no-ties pre-condition, and without it nothing more is assumed.)  The axioms are instantiated for every application of
+    the function that occurs in a goal (sym.instantiate_axioms)."""
+    a = lift(a)
+    if axis is None:
+        raise OutOfReach("argmax over the flattened array")
+    ax = a._ax(axis)
+    P = concrete_int(extent(a.dims[ax]))
+    if P is None or P > 27:
+        raise OutOfReach("argmax over a symbolic / long axis")
+    used("argmax (an index attaining the maximum; unique under the no-ties pre-condition)")
+    rest = a.dims[:ax] + a.dims[ax + 1:]
+    structured = arr.concrete_indices(a.dims[ax])
+    if structured is None or len(structured) != P:
+        raise OutOfReach("argmax: axis not enumerable")
+    ndig = []
+    for d in rest:
+        if any(isinstance(f, Sum) for f in arr.factors(d)) or isinstance(d, Sum):
+            raise OutOfReach("argmax: concatenated remaining axis")
+        ndig.append(len(arr.factors(d)) if isinstance(d, Prod) else 1)
+    phs = [zi(p_) for st_ in VMAP_STACK for p_ in st_]        # enclosing vmap indices: extra arguments of the function
+    nph = len(phs)
+    nargs = sum(ndig) + nph
+    name = sym.fresh_name("argmax")
+    fn = z3.Function(name, *([z3.IntSort()] * nargs + [z3.IntSort()])) if nargs else None
+    no_ties = ARGMAX_NO_TIES[0]
+
+    def rebuild(args):
+        idx, pos = [], 0
+        for d, n in zip(rest, ndig):
+            if isinstance(d, Prod):
+                it_ = iter(args[pos:pos + n])
+
+                def build(dd):
+                    if isinstance(dd, Prod):
+                        return tuple(build(k) for k in dd.kids)
+                    return next(it_)
+                idx.append(build(d))
+            else:
+                idx.append(args[pos])
+            pos += n
+        return idx
+
+    def vals_for(args):
+        idx = rebuild(list(args[nph:]))
+        vals = [arr.t_z3(a.elem(list(idx[:ax]) + [structured[j]] + list(idx[ax:])), True) for j in range(P)]
+        if nph:
+            vals = [z3.substitute(v, *list(zip(phs, [zi(x) for x in args[:nph]]))) for v in vals]
+        return vals
+
+    def facts_for(args, r=None):
+        r = fn(*args) if r is None else r
+        vals = vals_for(args)
+        top = vals[P - 1]
+        for j in range(P - 2, -1, -1):
+            top = z3.If(r == j, vals[j], top)
+        facts = [r >= 0, r < P] + [v <= top for v in vals]
+        if no_ties:
+            facts += [vals[i] != vals[j] for i in range(P) for j in range(i + 1, P)]
+        return facts
+
+    if fn is not None:
+        sym.INSTANTIATORS[name] = facts_for
+        sym.FINITE_RANGE[name] = P
+        sym.FUNC_EVAL[name] = vals_for
+
+    def elem(idx):
+        digs = []
+        for d, i in zip(rest, idx):
+            _digits(d, i, digs)
+        args = list(phs) + [zi(v) for v in digs]
+        if fn is None:
+            r = z3.Int(name)
+            for f in facts_for([], r):
+                sym.CTX.path.append(z3.simplify(f))
+            return r
+        return fn(*args)
+    return SArray(list(rest), elem, "int")
 
 
 def eigh_model(a):
